@@ -48,7 +48,27 @@ def parseMods (s : String) : Option (List Module) :=
 
 def unUnderscore (s : String) : String := s.map fun c => if c = '_' then ' ' else c
 
+/-- The rules text as the symbol-file parser stores it: the `space1` after the last hex field of
+    a `STACK CFI [INIT]` line swallows every leading space / tab of the rest of the line (parser.rs
+    `stack_cfi`, `stack_cfi_init`); the request carries the text as written in the file. Matters
+    only for the `(address, text)` order of delta records at one address. -/
+def storedRules (text : String) : String := String.ofList (text.toList.dropWhile fun c => c = ' ' || c = '\t')
+
+/-- rule text, hex-encoded UTF-8 (records `c` / `a`): any text a symbol-file line can hold — leading
+    blanks, `_`, tabs, form feeds, `;` `|`, non-ASCII; a line cannot hold CR / LF -/
+def unhexRules (h : String) : Option String := do
+  let bytes ← unhex h
+  let t ← String.fromUTF8? bytes.toByteArray
+  if t.toList.any fun c => c = '\n' || c = '\r' then none else some t
+
 def parseRecords (s : String) : Option SymFile :=
+  let addC (sf : SymFile) (a sz : Nat) (rules : String) : SymFile :=
+    { sf with cfis := sf.cfis ++ [{ addr := a, size := sz, init := storedRules rules, adds := [] }] }
+  let addA (sf : SymFile) (a : Nat) (rules : String) : Option SymFile :=
+    match sf.cfis.reverse with
+    | last :: before =>
+      some { sf with cfis := (({ last with adds := last.adds ++ [(a, storedRules rules)] }) :: before).reverse }
+    | [] => none
   (pieces s ";").foldlM (fun (sf : SymFile) r =>
     match r.splitOn "|" with
     | ["F", a, sz, ps, n] => do
@@ -57,15 +77,20 @@ def parseRecords (s : String) : Option SymFile :=
     | ["P", a, ps, n] => do
       let a ← optNat a; let ps ← optNat ps
       some { sf with pubs := sf.pubs ++ [{ addr := a, psize := ps, name := n }] }
+    -- rule text with `_` for a space (plain texts only; kept for readable cases and old corpus lines)
     | ["C", a, sz, rules] => do
       let a ← optNat a; let sz ← optNat sz
-      some { sf with cfis := sf.cfis ++ [{ addr := a, size := sz, init := unUnderscore rules, adds := [] }] }
+      some (addC sf a sz (unUnderscore rules))
     | ["A", a, rules] => do
       let a ← optNat a
-      match sf.cfis.reverse with
-      | last :: before =>
-        some { sf with cfis := (({ last with adds := last.adds ++ [(a, unUnderscore rules)] }) :: before).reverse }
-      | [] => none
+      addA sf a (unUnderscore rules)
+    -- rule text hex-encoded
+    | ["c", a, sz, h] => do
+      let a ← optNat a; let sz ← optNat sz; let rules ← unhexRules h
+      some (addC sf a sz rules)
+    | ["a", a, h] => do
+      let a ← optNat a; let rules ← unhexRules h
+      addA sf a rules
     | _ => none) {}
 
 def parseSyms (mods : List Module) (fields : List String) : Option (List (Option SymFile)) := do
